@@ -49,6 +49,8 @@ def gen_cases(tier):
     for v in (QUICK_VERS if q else T.ORDER):
         for kind in ('svg', 'eps', 'pdf', 'tex'):
             yield ('fmt', v, kind)
+    for v in ('M1', 'M2', 1):
+        yield ('emptyrow', v)
     from .c01 import deviations
     for v in ('M3', 2) if q else ('M3', 2, 7):
         devs = list(deviations(SVG_OPTS, 2 if q else 3))
@@ -91,9 +93,29 @@ def check_color(kind, got, spec, what, acc, case, svgversion=None):
             acc.violation('colour/' + kind, '%s colour %r, requested %r = %r' % (what, got[0], spec, tuple(round(y / 255.0, 6) for y in exp[:3])), case)
 
 
-def one(v, kind, kw, acc):
-    case = ('one', v, kind, kw)
-    qr = symbol(v)
+def find_special(v):
+    """symbols of version v whose matrix has an all-light row, an all-light column, or a row that starts with a light module and ends dark"""
+    found = {}
+    lvl = T.levels_of(v)[0]
+    for x in range(0, 4000):
+        for mask in range(4):
+            try:
+                q = segno.make(str(x), version=v, error=lvl, mask=mask, boost_error=False)
+            except ValueError:
+                continue
+            m = q.matrix
+            if 'row' not in found and any(not any(r) for r in m):
+                found['row'] = (str(x), mask)
+            if 'col' not in found and any(not any(r[j] for r in m) for j in range(len(m))):
+                found['col'] = (str(x), mask)
+        if len(found) == 2:
+            break
+    return found
+
+
+def one(v, kind, kw, acc, content=None):
+    case = ('one', v, kind, kw) if content is None else ('onec', v, kind, kw, content)
+    qr = symbol(v) if content is None else segno.make(content[0], version=v, error=T.levels_of(v)[0], mask=content[1], boost_error=False)
     size = T.size_of(v)
     m = qr.matrix
     scale = kw.get('scale', 1)
@@ -280,6 +302,16 @@ def run_case(case, acc):
                     kw = dict(base)
                     kw.update(var)
                     one(v, fmt, kw, acc)
+    elif kind == 'emptyrow':
+        v = case[1]
+        found = find_special(v)
+        acc.add('special', (v, tuple(sorted(found))))
+        for what, content in sorted(found.items()):
+            for fmt in ('svg', 'eps', 'pdf', 'tex'):
+                for kw in ({}, {'border': 0}, {'scale': 2.5, 'border': 1}, {'light': '#eee'} if fmt != 'tex' else {'unit': 'mm'}):
+                    one(v, fmt, dict(kw), acc, content=content)
+    elif kind == 'onec':
+        one(case[1], case[2], dict(case[3]), acc, content=tuple(case[4]))
     elif kind == 'svgopts':
         _, v, devs = case
         for kw in devs:
@@ -298,5 +330,7 @@ def obligations(agg, tier):
     for k in ('svg', 'eps', 'pdf'):
         if not any(x[0] == k and x[3] for x in kinds):
             yield '%s: no document with a light colour was rasterised' % k
+    if not any('row' in sp[1] for sp in agg.sets.get('special', ())):
+        yield 'no symbol with an all-light row was found for the empty-row family'
     if agg.ctr.get('documents', 0) < 3000:
         yield 'documents parsed: %d' % agg.ctr.get('documents', 0)
